@@ -5,7 +5,9 @@ use super::*;
 use crate::app::control::*;
 use crate::app::parse::options::ParseOptions;
 use crate::app::variations::{Group12Var1, Group41Var1, Group41Var2, Group41Var3, Group41Var4};
-use crate::app::{BufferSize, FunctionCode, RetryStrategy, Sequence, Timeout, Timestamp, Variation};
+use crate::app::{
+    BufferSize, FunctionCode, RetryStrategy, Sequence, Timeout, Timestamp, Variation,
+};
 use crate::link::reader::LinkModes;
 use crate::link::{EndpointAddress, LinkErrorMode, LinkReadMode};
 use crate::master::*;
@@ -65,13 +67,23 @@ impl AssocCfg {
         c.response_timeout = Timeout::from_millis(self.response_timeout_ms).unwrap();
         c.disable_unsol_classes = ec(self.disable_unsol);
         c.enable_unsol_classes = ec(self.enable_unsol);
-        c.startup_integrity_classes = Classes { class0: self.startup_integrity[0], events: EventClasses::new(self.startup_integrity[1], self.startup_integrity[2], self.startup_integrity[3]) };
+        c.startup_integrity_classes = Classes {
+            class0: self.startup_integrity[0],
+            events: EventClasses::new(
+                self.startup_integrity[1],
+                self.startup_integrity[2],
+                self.startup_integrity[3],
+            ),
+        };
         c.auto_time_sync = self.auto_time_sync.map(|x| match x {
             0 => TimeSyncProcedure::Lan,
             1 => TimeSyncProcedure::NonLan,
             _ => TimeSyncProcedure::DirectWriteAbsTime,
         });
-        c.auto_tasks_retry_strategy = RetryStrategy::new(Duration::from_millis(self.retry_min_ms), Duration::from_millis(self.retry_max_ms));
+        c.auto_tasks_retry_strategy = RetryStrategy::new(
+            Duration::from_millis(self.retry_min_ms),
+            Duration::from_millis(self.retry_max_ms),
+        );
         c.keep_alive_timeout = self.keep_alive_ms.map(Duration::from_millis);
         c.auto_integrity_scan_on_buffer_overflow = self.integrity_on_overflow;
         c.event_scan_on_events_available = ec(self.event_scan);
@@ -91,7 +103,13 @@ pub struct MasterCfg {
 
 impl Default for MasterCfg {
     fn default() -> Self {
-        MasterCfg { master_addr: 1, tx: 2048, rx: 2048, decode: 0, discard: false }
+        MasterCfg {
+            master_addr: 1,
+            tx: 2048,
+            rx: 2048,
+            decode: 0,
+            discard: false,
+        }
     }
 }
 
@@ -132,13 +150,24 @@ impl MMock {
 
 impl AssociationInformation for MMock {
     fn task_start(&mut self, task_type: TaskType, fc: FunctionCode, seq: Sequence) {
-        self.push(MEv::TaskStart(format!("{task_type:?}"), fc.as_u8(), seq.value()));
+        self.push(MEv::TaskStart(
+            format!("{task_type:?}"),
+            fc.as_u8(),
+            seq.value(),
+        ));
     }
     fn task_success(&mut self, task_type: TaskType, fc: FunctionCode, seq: Sequence) {
-        self.push(MEv::TaskSuccess(format!("{task_type:?}"), fc.as_u8(), seq.value()));
+        self.push(MEv::TaskSuccess(
+            format!("{task_type:?}"),
+            fc.as_u8(),
+            seq.value(),
+        ));
     }
     fn task_fail(&mut self, task_type: TaskType, error: TaskError) {
-        self.push(MEv::TaskFail(format!("{task_type:?}"), format!("{error:?}")));
+        self.push(MEv::TaskFail(
+            format!("{task_type:?}"),
+            format!("{error:?}"),
+        ));
     }
     fn unsolicited_response(&mut self, is_duplicate: bool, seq: Sequence) {
         self.push(MEv::Unsolicited(is_duplicate, seq.value()));
@@ -176,9 +205,16 @@ impl FileReader for RecFileReader {
         self.opened = Some(size);
         FileAction::Continue
     }
-    fn block_received(&mut self, block_num: u32, data: &[u8]) -> crate::app::MaybeAsync<FileAction> {
+    fn block_received(
+        &mut self,
+        block_num: u32,
+        data: &[u8],
+    ) -> crate::app::MaybeAsync<FileAction> {
         if block_num != self.blocks {
-            self.finish(format!("Err(block {block_num} delivered, {} expected)", self.blocks));
+            self.finish(format!(
+                "Err(block {block_num} delivered, {} expected)",
+                self.blocks
+            ));
         }
         self.blocks += 1;
         self.bytes += data.len();
@@ -189,7 +225,10 @@ impl FileReader for RecFileReader {
         self.finish(t);
     }
     fn completed(&mut self) {
-        let t = format!("Ok(completed: opened {:?}, {} blocks, {} bytes)", self.opened, self.blocks, self.bytes);
+        let t = format!(
+            "Ok(completed: opened {:?}, {} blocks, {} bytes)",
+            self.opened, self.blocks, self.bytes
+        );
         self.finish(t);
     }
 }
@@ -239,7 +278,16 @@ pub fn build_commands(objs: &[(u8, u16, bool, u32)]) -> CommandHeaders {
     for (kind, index, wide, value) in objs {
         match kind {
             0 => {
-                let c = Group12Var1::new(ControlCode::from_op_type(if value % 2 == 0 { OpType::LatchOn } else { OpType::LatchOff }), (*value % 3) as u8 + 1, *value, value / 2);
+                let c = Group12Var1::new(
+                    ControlCode::from_op_type(if value % 2 == 0 {
+                        OpType::LatchOn
+                    } else {
+                        OpType::LatchOff
+                    }),
+                    (*value % 3) as u8 + 1,
+                    *value,
+                    value / 2,
+                );
                 if *wide {
                     b.add_u16(c, *index)
                 } else {
@@ -286,7 +334,13 @@ pub fn build_commands(objs: &[(u8, u16, bool, u32)]) -> CommandHeaders {
 impl MasterSim {
     pub async fn start(cfg: MasterCfg, assocs: &[AssocCfg]) -> MasterSim {
         let clock = Clock::start();
-        let shared = Arc::new(Mutex::new(MShared { log: vec![], taken: 0, clock, time_base: Some(1_600_000_000_000), results: vec![] }));
+        let shared = Arc::new(Mutex::new(MShared {
+            log: vec![],
+            taken: 0,
+            clock,
+            time_base: Some(1_600_000_000_000),
+            results: vec![],
+        }));
         let config = MasterChannelConfig {
             master_address: EndpointAddress::try_new(cfg.master_addr).unwrap(),
             decode_level: decode_level(cfg.decode),
@@ -294,8 +348,23 @@ impl MasterSim {
             rx_buffer_size: BufferSize::new(cfg.rx.max(2048)).unwrap(),
         };
         let (tx, rx) = crate::util::channel::request_channel();
-        let modes = LinkModes { error_mode: if cfg.discard { LinkErrorMode::Discard } else { LinkErrorMode::Close }, read_mode: LinkReadMode::Stream };
-        let task = crate::master::task::MasterTask::new(Enabled::Yes, modes, ParseOptions { parse_zero_length_strings: false }, config, rx);
+        let modes = LinkModes {
+            error_mode: if cfg.discard {
+                LinkErrorMode::Discard
+            } else {
+                LinkErrorMode::Close
+            },
+            read_mode: LinkReadMode::Stream,
+        };
+        let task = crate::master::task::MasterTask::new(
+            Enabled::Yes,
+            modes,
+            ParseOptions {
+                parse_zero_length_strings: false,
+            },
+            config,
+            rx,
+        );
         let mut channel = MasterChannel::new(tx, MasterChannelType::Stream);
         let (conn_tx, mut conn_rx) = tokio::sync::mpsc::channel::<PhysLayer>(4);
         let run_errors = Arc::new(Mutex::new(vec![]));
@@ -319,7 +388,9 @@ impl MasterSim {
                     break;
                 }
                 let err = session.run(&mut phys).await;
-                errs.lock().unwrap_or_else(|e| e.into_inner()).push(format!("{err:?}"));
+                errs.lock()
+                    .unwrap_or_else(|e| e.into_inner())
+                    .push(format!("{err:?}"));
                 io::bump();
                 if let RunError::Stop(StopReason::Shutdown) = err {
                     break;
@@ -329,9 +400,18 @@ impl MasterSim {
         let mut handles = vec![];
         for ac in assocs {
             let rec = Recorder::new();
-            let mock = MMock { shared: shared.clone(), addr: ac.addr };
+            let mock = MMock {
+                shared: shared.clone(),
+                addr: ac.addr,
+            };
             let h = channel
-                .add_association(EndpointAddress::try_new(ac.addr).unwrap(), ac.build(), Box::new(rec.clone()), Box::new(mock.clone()), Box::new(mock))
+                .add_association(
+                    EndpointAddress::try_new(ac.addr).unwrap(),
+                    ac.build(),
+                    Box::new(rec.clone()),
+                    Box::new(mock.clone()),
+                    Box::new(mock),
+                )
                 .await
                 .expect("add_association");
             handles.push((ac.addr, h, rec));
@@ -339,7 +419,22 @@ impl MasterSim {
         let (pipe, phys) = io::phys_pipe(Some(clock.epoch));
         let _ = conn_tx.send(phys).await;
         settle().await;
-        MasterSim { cfg, clock, shared, channel, assocs: handles, pipe, old_pipes: vec![], conns: conn_tx, join, decoder: WireDecoder::new(), tseq: 0, epoch: 0, next_id: 0, run_errors }
+        MasterSim {
+            cfg,
+            clock,
+            shared,
+            channel,
+            assocs: handles,
+            pipe,
+            old_pipes: vec![],
+            conns: conn_tx,
+            join,
+            decoder: WireDecoder::new(),
+            tseq: 0,
+            epoch: 0,
+            next_id: 0,
+            run_errors,
+        }
     }
 
     pub fn now(&self) -> u64 {
@@ -359,7 +454,12 @@ impl MasterSim {
         let mut out = vec![];
         for p in self.old_pipes.clone() {
             for t in p.take_tx() {
-                out.push(Rx::Garbage { ord: t.ord, t_ms: t.t_ms, why: "write on a connection that was replaced".into(), bytes: t.bytes });
+                out.push(Rx::Garbage {
+                    ord: t.ord,
+                    t_ms: t.t_ms,
+                    why: "write on a connection that was replaced".into(),
+                    bytes: t.bytes,
+                });
             }
         }
         for t in self.pipe.take_tx() {
@@ -426,12 +526,32 @@ impl MasterSim {
         let t0 = self.now();
         tokio::spawn(async move {
             let text = match req {
-                UserReq::ReadClasses(c) => format!("{:?}", h.read(ReadRequest::class_scan(Classes { class0: c[0], events: EventClasses::new(c[1], c[2], c[3]) })).await),
+                UserReq::ReadClasses(c) => format!(
+                    "{:?}",
+                    h.read(ReadRequest::class_scan(Classes {
+                        class0: c[0],
+                        events: EventClasses::new(c[1], c[2], c[3])
+                    }))
+                    .await
+                ),
                 UserReq::ReadRange16(g, v, a, b) => match Variation::lookup(g, v) {
-                    Some(var) => format!("{:?}", h.read(ReadRequest::two_byte_range(var, a, b)).await),
+                    Some(var) => {
+                        format!("{:?}", h.read(ReadRequest::two_byte_range(var, a, b)).await)
+                    }
                     None => "Err(bad variation)".into(),
                 },
-                UserReq::Command(sbo, objs) => format!("{:?}", h.operate(if sbo { CommandMode::SelectBeforeOperate } else { CommandMode::DirectOperate }, build_commands(&objs)).await),
+                UserReq::Command(sbo, objs) => format!(
+                    "{:?}",
+                    h.operate(
+                        if sbo {
+                            CommandMode::SelectBeforeOperate
+                        } else {
+                            CommandMode::DirectOperate
+                        },
+                        build_commands(&objs)
+                    )
+                    .await
+                ),
                 UserReq::TimeSync(p) => format!(
                     "{:?}",
                     h.synchronize_time(match p {
@@ -443,25 +563,51 @@ impl MasterSim {
                 ),
                 UserReq::ColdRestart => format!("{:?}", h.cold_restart().await),
                 UserReq::WarmRestart => format!("{:?}", h.warm_restart().await),
-                UserReq::WriteDeadBands(v) => format!("{:?}", h.write_dead_bands(vec![DeadBandHeader::group34_var1_u16(v)]).await),
+                UserReq::WriteDeadBands(v) => format!(
+                    "{:?}",
+                    h.write_dead_bands(vec![DeadBandHeader::group34_var1_u16(v)])
+                        .await
+                ),
                 UserReq::LinkStatus => format!("{:?}", h.check_link_status().await),
                 UserReq::WriteDeadBandsV(var, wide, items) => {
                     let hdr = match (var, wide) {
-                        (1, false) => DeadBandHeader::group34_var1_u8(items.iter().map(|(i, v)| (*i as u8, *v as u16)).collect()),
-                        (1, true) => DeadBandHeader::group34_var1_u16(items.iter().map(|(i, v)| (*i, *v as u16)).collect()),
-                        (2, false) => DeadBandHeader::group34_var2_u8(items.iter().map(|(i, v)| (*i as u8, *v as u32)).collect()),
-                        (2, true) => DeadBandHeader::group34_var2_u16(items.iter().map(|(i, v)| (*i, *v as u32)).collect()),
-                        (_, false) => DeadBandHeader::group34_var3_u8(items.iter().map(|(i, v)| (*i as u8, *v as f32)).collect()),
-                        (_, true) => DeadBandHeader::group34_var3_u16(items.iter().map(|(i, v)| (*i, *v as f32)).collect()),
+                        (1, false) => DeadBandHeader::group34_var1_u8(
+                            items.iter().map(|(i, v)| (*i as u8, *v as u16)).collect(),
+                        ),
+                        (1, true) => DeadBandHeader::group34_var1_u16(
+                            items.iter().map(|(i, v)| (*i, *v as u16)).collect(),
+                        ),
+                        (2, false) => DeadBandHeader::group34_var2_u8(
+                            items.iter().map(|(i, v)| (*i as u8, *v as u32)).collect(),
+                        ),
+                        (2, true) => DeadBandHeader::group34_var2_u16(
+                            items.iter().map(|(i, v)| (*i, *v as u32)).collect(),
+                        ),
+                        (_, false) => DeadBandHeader::group34_var3_u8(
+                            items.iter().map(|(i, v)| (*i as u8, *v as f32)).collect(),
+                        ),
+                        (_, true) => DeadBandHeader::group34_var3_u16(
+                            items.iter().map(|(i, v)| (*i, *v as f32)).collect(),
+                        ),
                     };
                     format!("{:?}", h.write_dead_bands(vec![hdr]).await)
                 }
                 UserReq::ReadFile(max_block) => {
                     // the outcome is pushed by the reader's terminal callback; only a refused submission is reported here
-                    let reader = RecFileReader { shared: shared.clone(), id, t0, blocks: 0, bytes: 0, opened: None };
+                    let reader = RecFileReader {
+                        shared: shared.clone(),
+                        id,
+                        t0,
+                        blocks: 0,
+                        bytes: 0,
+                        opened: None,
+                    };
                     let mut fcfg = FileReadConfig::default();
                     fcfg.max_block_size = max_block;
-                    match h.read_file("some/file.txt", fcfg, Box::new(reader), None).await {
+                    match h
+                        .read_file("some/file.txt", fcfg, Box::new(reader), None)
+                        .await
+                    {
                         Ok(()) => return,
                         Err(e) => format!("Err(not queued: {e:?})"),
                     }
@@ -490,7 +636,10 @@ impl MasterSim {
                     }
                 }
                 UserReq::EmptyResponse(f) => match FunctionCode::from(f) {
-                    Some(fc) => format!("{:?}", h.send_and_expect_empty_response(fc, Headers::new()).await),
+                    Some(fc) => format!(
+                        "{:?}",
+                        h.send_and_expect_empty_response(fc, Headers::new()).await
+                    ),
                     None => "Err(bad function)".into(),
                 },
             };
@@ -504,7 +653,10 @@ impl MasterSim {
 
     pub fn result_of(&self, id: u64) -> Option<(u64, u64, u64, String)> {
         let g = self.shared.lock().unwrap_or_else(|e| e.into_inner());
-        g.results.iter().find(|r| r.0 == id).map(|r| (r.1, r.2, r.3, r.4.clone()))
+        g.results
+            .iter()
+            .find(|r| r.0 == id)
+            .map(|r| (r.1, r.2, r.3, r.4.clone()))
     }
 
     pub fn results_count(&self, id: u64) -> usize {
@@ -521,11 +673,18 @@ impl MasterSim {
     }
 
     pub fn all_events(&self) -> Vec<(u64, u64, u16, MEv)> {
-        self.shared.lock().unwrap_or_else(|e| e.into_inner()).log.clone()
+        self.shared
+            .lock()
+            .unwrap_or_else(|e| e.into_inner())
+            .log
+            .clone()
     }
 
     pub fn set_time_base(&self, base: Option<u64>) {
-        self.shared.lock().unwrap_or_else(|e| e.into_inner()).time_base = base;
+        self.shared
+            .lock()
+            .unwrap_or_else(|e| e.into_inner())
+            .time_base = base;
     }
 }
 
@@ -533,7 +692,13 @@ impl MasterSim {
 pub fn requests(rx: &[Rx]) -> Vec<(u64, u64, u16, Vec<u8>)> {
     rx.iter()
         .filter_map(|x| match x {
-            Rx::Fragment { ord, t_ms, dest, bytes, .. } => Some((*ord, *t_ms, *dest, bytes.clone())),
+            Rx::Fragment {
+                ord,
+                t_ms,
+                dest,
+                bytes,
+                ..
+            } => Some((*ord, *t_ms, *dest, bytes.clone())),
             _ => None,
         })
         .collect()
